@@ -762,6 +762,8 @@ class Emitter:
             o = {'eq': '==', 'ne': '!=', 'ugt': '>', 'uge': '>=', 'ult': '<', 'ule': '<=', 'sgt': '>', 'sge': '>=', 'slt': '<', 'sle': '<='}[pred]
             if pred in ('eq', 'ne'):
                 return '((uint8_t)(%s %s %s))' % (s.expr(a, t), o, s.expr(b, t))
+            if getattr(s, 'ptrcmp', False):    # opt-in (--ptrcmp): relational pointer comparison stays a pointer comparison (CBMC folds same-object offsets; through uintptr_t it cannot)
+                return '((uint8_t)((uint8_t*)%s %s (uint8_t*)%s))' % (s.expr(a, t), o, s.expr(b, t))
             return '((uint8_t)(%s %s %s))' % (A, o, B)
         if pred in ('eq', 'ne', 'ugt', 'uge', 'ult', 'ule'):
             o = {'eq': '==', 'ne': '!=', 'ugt': '>', 'uge': '>=', 'ult': '<', 'ule': '<='}[pred]
@@ -1394,6 +1396,7 @@ def main():
     ap.add_argument('--rpo', action='store_true', help='emit basic blocks in reverse post-order (fewer spurious backward gotos)')
     ap.add_argument('--vdispatch', action='store_true', help='dispatch virtual calls explicitly over the functions in the same vtable slot of this module')
     ap.add_argument('--typed-alloc', action='store_true', help='operator new / new[] with a non-literal size: allocate n elements of the type the result is used as')
+    ap.add_argument('--ptrcmp', action='store_true', help='emit <, <=, >, >= on pointers as pointer comparisons instead of comparing uintptr_t values')
     ap.add_argument('--wrap', action='append', default=[], help='sym: every call of sym goes to w_<sym> (defined by the harness/model); the real body is still emitted under its own name')
     a = ap.parse_args()
     m = parse_module(open(a.ll).read())
@@ -1415,6 +1418,7 @@ def main():
     e.rpo = a.rpo; e.vdispatch = a.vdispatch
     e.wraps = set('@' + w for w in a.wrap)
     e.typed_alloc = a.typed_alloc
+    e.ptrcmp = a.ptrcmp
     e.loopcuts = {}
     for lc in a.loopcut:
         fn, hook, vs = lc.split(':'); e.loopcuts.setdefault(fn, []).append(dict(hook=hook, vars=vs.split(',')))
